@@ -79,11 +79,11 @@ def m_alt13(ctx, case):
         for df in (0, 4, 16, 20):
             n = bits.df_len(df)
             for rep in range(case["fill"]):
-                body = rng.getrandbits(n - 29)
+                body = rng.fill(n - 29)
                 # AC field = bits 20..32
                 data = (df << (n - 29)) | body
                 data = bits.setfield(data << 24, n, 20, 32, code) >> 24
-                f = bits.with_pi(data, n, rng.getrandbits(24))
+                f = bits.with_pi(data, n, rng.fill(24))
                 hx = "%0*X" % (n // 4, f)
                 if rep % 3 == 2:
                     hx = hx.lower()
@@ -107,7 +107,7 @@ def m_alt13(ctx, case):
                     ctx.violation("altitude-depends-on-bit-outside-field", frame=hx, flipped_bit=p, a=r, b=r3)
                 ctx.nontrivial(("a13", code, df, hx)) if code else None
         # DF5 carrier rejected by surv.altitude, other DFs rejected by altcode
-        body = rng.getrandbits(27)
+        body = rng.fill(27)
         f5 = bits.setfield(bits.with_pi((5 << 27) | body, 56, 1), 56, 20, 32, code)
         r = call(surv.altitude, "%014X" % f5)
         ctx.ev()
@@ -116,7 +116,7 @@ def m_alt13(ctx, case):
         ctx.hit("surv_df5_rejected")
         dfw = rng.choice([d for d in range(32) if d not in (0, 4, 16, 20)])
         n = 112
-        fw = bits.setfield(bits.with_pi((dfw << 83) | rng.getrandbits(83), n, 0), n, 20, 32, code)
+        fw = bits.setfield(bits.with_pi((dfw << 83) | rng.fill(83), n, 0), n, 20, 32, code)
         r = call(pms.common.altcode, "%028X" % fw)
         ctx.ev()
         if not (r[0] == "exc" and r[1] == "RuntimeError"):
@@ -134,8 +134,8 @@ def m_alt12(ctx, case):
     T = table()
     for v in range(case["lo"], case["hi"]):
         for tc in case["tcs"]:
-            me = (tc << 51) | (rng.getrandbits(3) << 48) | (v << 36) | rng.getrandbits(36)
-            f = bits.es_frame(rng.choice((17, 18)), rng.randrange(8), rng.getrandbits(24), me)
+            me = (tc << 51) | (rng.fill(3) << 48) | (v << 36) | rng.fill(36)
+            f = bits.es_frame(rng.choice((17, 18)), rng.randrange(8), rng.fill(24), me)
             hx = "%028X" % f
             if (v + tc) % 7 == 0:
                 hx = hx.lower()
